@@ -6,6 +6,17 @@ import ZodbModel.FsIndex
 namespace Proofs.FsIndex
 open ZodbModel ZodbModel.FsIndex
 
+/-- decidable equality of results, so that concrete runs of the model can be checked by `decide` -/
+instance instDecidableEqExcept {ε α : Type} [DecidableEq ε] [DecidableEq α] :
+    DecidableEq (Except ε α) := fun a b =>
+  match a, b with
+  | .ok x, .ok y =>
+    if h : x = y then isTrue (by rw [h]) else isFalse (fun e => h (by injection e))
+  | .error x, .error y =>
+    if h : x = y then isTrue (by rw [h]) else isFalse (fun e => h (by injection e))
+  | .ok _, .error _ => isFalse (fun e => by cases e)
+  | .error _, .ok _ => isFalse (fun e => by cases e)
+
 /-! ### generic lemmas on sorted association lists -/
 
 abbrev Sorted {α} (l : AL α) : Prop := l.Pairwise (fun x y => x.1 < y.1)
@@ -348,7 +359,7 @@ theorem bucketInv_alSet {b : AL Nat} (hb : BucketInv b) {s v : Nat} (hs : s < 65
 
 theorem bucketInv_alDel {b : AL Nat} (hb : BucketInv b) {s : Nat} (hne : alDel s b ≠ []) :
     BucketInv (alDel s b) :=
-  ⟨hne, alDel_sorted _ hb.2.1, fun sv h => hb.2.2 _ (mem_alDel h)⟩
+  ⟨hne, alDel_sorted _ hb.2.1, fun _ h => hb.2.2 _ (mem_alDel h)⟩
 
 theorem inv_alSet {ix : Idx} (h : Inv ix) {p : Nat} {b : AL Nat} (hp : p < 2 ^ 48)
     (hb : BucketInv b) : Inv (alSet p b ix) := by
@@ -359,7 +370,7 @@ theorem inv_alSet {ix : Idx} (h : Inv ix) {p : Nat} {b : AL Nat} (hp : p < 2 ^ 4
   · exact h.2 _ hpb
 
 theorem inv_alDel {ix : Idx} (h : Inv ix) (p : Nat) : Inv (alDel p ix) :=
-  ⟨alDel_sorted _ h.1, fun pb hpb => h.2 _ (mem_alDel hpb)⟩
+  ⟨alDel_sorted _ h.1, fun _ hpb => h.2 _ (mem_alDel hpb)⟩
 
 theorem get_alSet (ix : Idx) (p : Nat) (b : AL Nat) (k' : Nat) :
     get (alSet p b ix) k' = if pre k' = p then alGet (suf k') b else get ix k' := by
@@ -540,5 +551,508 @@ theorem len_eq (ix : Idx) : len ix = (items ix).length := by
     obtain ⟨p, b⟩ := pb
     rw [items_cons, List.length_append, List.length_map, ← ih]
     simp [len]
+
+/-! ### bounded searches lifted to the two-level index -/
+
+theorem bucket_min {ix : Idx} (h : Inv ix) {p : Nat} {b : AL Nat} (hb : (p, b) ∈ ix) :
+    ∃ s, alMin b = some s ∧ s < 65536 ∧ get ix (mk p s) ≠ none ∧
+      ∀ m, get ix m ≠ none → pre m = p → s ≤ suf m := by
+  have hbi := (h.2 _ hb).2
+  obtain ⟨s, v, h1, h2, h3⟩ := alMin_spec hbi.2.1 hbi.1
+  have hs : s < 65536 := (hbi.2.2 _ h2).1
+  refine ⟨s, h1, hs, ?_, ?_⟩
+  · rw [get_ne_none_iff h]
+    exact ⟨b, v, by rw [pre_mk hs]; exact hb, by rw [suf_mk hs]; exact h2⟩
+  · intro m hm hp
+    obtain ⟨b', v', hb', hv'⟩ := (get_ne_none_iff h).1 hm
+    rw [hp] at hb'
+    have := bucket_unique h hb hb'
+    subst this
+    exact h3 _ hv'
+
+theorem bucket_max {ix : Idx} (h : Inv ix) {p : Nat} {b : AL Nat} (hb : (p, b) ∈ ix) :
+    ∃ s, alMax b = some s ∧ s < 65536 ∧ get ix (mk p s) ≠ none ∧
+      ∀ m, get ix m ≠ none → pre m = p → suf m ≤ s := by
+  have hbi := (h.2 _ hb).2
+  obtain ⟨s, v, h1, h2, h3⟩ := alMax_spec hbi.2.1 hbi.1
+  have hs : s < 65536 := (hbi.2.2 _ h2).1
+  refine ⟨s, h1, hs, ?_, ?_⟩
+  · rw [get_ne_none_iff h]
+    exact ⟨b, v, by rw [pre_mk hs]; exact hb, by rw [suf_mk hs]; exact h2⟩
+  · intro m hm hp
+    obtain ⟨b', v', hb', hv'⟩ := (get_ne_none_iff h).1 hm
+    rw [hp] at hb'
+    have := bucket_unique h hb hb'
+    subst this
+    exact h3 _ hv'
+
+theorem bucket_minGE_some {ix : Idx} (h : Inv ix) {p : Nat} {b : AL Nat} (hb : (p, b) ∈ ix)
+    {j s : Nat} (hj : alMinGE j b = some s) :
+    s < 65536 ∧ j ≤ s ∧ get ix (mk p s) ≠ none ∧
+      ∀ m, get ix m ≠ none → pre m = p → j ≤ suf m → s ≤ suf m := by
+  have hbi := (h.2 _ hb).2
+  obtain ⟨⟨v, h1⟩, h2, h3⟩ := alMinGE_some hbi.2.1 hj
+  have hs : s < 65536 := (hbi.2.2 _ h1).1
+  refine ⟨hs, h2, ?_, ?_⟩
+  · rw [get_ne_none_iff h]
+    exact ⟨b, v, by rw [pre_mk hs]; exact hb, by rw [suf_mk hs]; exact h1⟩
+  · intro m hm hp hjm
+    obtain ⟨b', v', hb', hv'⟩ := (get_ne_none_iff h).1 hm
+    rw [hp] at hb'
+    have := bucket_unique h hb hb'
+    subst this
+    exact h3 _ hv' hjm
+
+theorem bucket_minGE_none {ix : Idx} (h : Inv ix) {p : Nat} {b : AL Nat} (hb : (p, b) ∈ ix)
+    {j : Nat} (hj : alMinGE j b = none) :
+    ∀ m, get ix m ≠ none → pre m = p → suf m < j := by
+  intro m hm hp
+  obtain ⟨b', v', hb', hv'⟩ := (get_ne_none_iff h).1 hm
+  rw [hp] at hb'
+  have := bucket_unique h hb hb'
+  subst this
+  exact alMinGE_none hj _ hv'
+
+theorem bucket_maxLE_some {ix : Idx} (h : Inv ix) {p : Nat} {b : AL Nat} (hb : (p, b) ∈ ix)
+    {j s : Nat} (hj : alMaxLE j b = some s) :
+    s < 65536 ∧ s ≤ j ∧ get ix (mk p s) ≠ none ∧
+      ∀ m, get ix m ≠ none → pre m = p → suf m ≤ j → suf m ≤ s := by
+  have hbi := (h.2 _ hb).2
+  obtain ⟨⟨v, h1⟩, h2, h3⟩ := alMaxLE_some hbi.2.1 hj
+  have hs : s < 65536 := (hbi.2.2 _ h1).1
+  refine ⟨hs, h2, ?_, ?_⟩
+  · rw [get_ne_none_iff h]
+    exact ⟨b, v, by rw [pre_mk hs]; exact hb, by rw [suf_mk hs]; exact h1⟩
+  · intro m hm hp hjm
+    obtain ⟨b', v', hb', hv'⟩ := (get_ne_none_iff h).1 hm
+    rw [hp] at hb'
+    have := bucket_unique h hb hb'
+    subst this
+    exact h3 _ hv' hjm
+
+theorem bucket_maxLE_none {ix : Idx} (h : Inv ix) {p : Nat} {b : AL Nat} (hb : (p, b) ∈ ix)
+    {j : Nat} (hj : alMaxLE j b = none) :
+    ∀ m, get ix m ≠ none → pre m = p → j < suf m := by
+  intro m hm hp
+  obtain ⟨b', v', hb', hv'⟩ := (get_ne_none_iff h).1 hm
+  rw [hp] at hb'
+  have := bucket_unique h hb hb'
+  subst this
+  exact alMaxLE_none (h.2 _ hb).2.2.1 hj _ hv'
+
+theorem prefix_minGE_some {ix : Idx} (h : Inv ix) {q p : Nat} (hq : alMinGE q ix = some p) :
+    ∃ b, (p, b) ∈ ix ∧ q ≤ p ∧ ∀ m, get ix m ≠ none → q ≤ pre m → p ≤ pre m := by
+  obtain ⟨⟨b, h1⟩, h2, h3⟩ := alMinGE_some h.1 hq
+  refine ⟨b, h1, h2, ?_⟩
+  intro m hm hqm
+  obtain ⟨b', v', hb', _⟩ := (get_ne_none_iff h).1 hm
+  exact h3 _ hb' hqm
+
+theorem prefix_minGE_none {ix : Idx} (h : Inv ix) {q : Nat} (hq : alMinGE q ix = none) :
+    ∀ m, get ix m ≠ none → pre m < q := by
+  intro m hm
+  obtain ⟨b', v', hb', _⟩ := (get_ne_none_iff h).1 hm
+  exact alMinGE_none hq _ hb'
+
+theorem prefix_maxLE_some {ix : Idx} (h : Inv ix) {q p : Nat} (hq : alMaxLE q ix = some p) :
+    ∃ b, (p, b) ∈ ix ∧ p ≤ q ∧ ∀ m, get ix m ≠ none → pre m ≤ q → pre m ≤ p := by
+  obtain ⟨⟨b, h1⟩, h2, h3⟩ := alMaxLE_some h.1 hq
+  refine ⟨b, h1, h2, ?_⟩
+  intro m hm hqm
+  obtain ⟨b', v', hb', _⟩ := (get_ne_none_iff h).1 hm
+  exact h3 _ hb' hqm
+
+theorem prefix_maxLE_none {ix : Idx} (h : Inv ix) {q : Nat} (hq : alMaxLE q ix = none) :
+    ∀ m, get ix m ≠ none → q < pre m := by
+  intro m hm
+  obtain ⟨b', v', hb', _⟩ := (get_ne_none_iff h).1 hm
+  exact alMaxLE_none h.1 hq _ hb'
+
+theorem prefix_lt {ix : Idx} (h : Inv ix) {m : Nat} (hm : get ix m ≠ none) : pre m < 2 ^ 48 := by
+  obtain ⟨b', v', hb', _⟩ := (get_ne_none_iff h).1 hm
+  exact (h.2 _ hb').1
+
+/-! ### from "either a witness or ValueError" to the three-part refinement statement -/
+
+theorem refines_of_spec {P : Nat → Prop} {N : Prop} {r : Except Err Nat}
+    (huniq : ∀ m m', P m → P m' → m = m') (hex : ∀ m, P m → ¬ N)
+    (hspec : (∃ m, r = .ok m ∧ P m) ∨ (r = .error .valueError ∧ N)) :
+    (∀ m, r = .ok m ↔ P m) ∧ (r = .error .valueError ↔ N) ∧
+      (∀ e, r = .error e → e = .valueError) := by
+  rcases hspec with ⟨m, he, hP⟩ | ⟨he, hN⟩
+  · subst he
+    refine ⟨fun m' => ⟨fun hm => ?_, fun hm => ?_⟩, ⟨fun hc => ?_, fun hn => ?_⟩, fun e hc => ?_⟩
+    · injection hm with hm; subst hm; exact hP
+    · rw [huniq m m' hP hm]
+    · cases hc
+    · exact absurd hn (hex m hP)
+    · cases hc
+  · subst he
+    refine ⟨fun m' => ⟨fun hm => ?_, fun hm => ?_⟩, ⟨fun _ => hN, fun _ => rfl⟩, fun e hc => ?_⟩
+    · cases hm
+    · exact absurd hN (hex m' hm)
+    · injection hc with hc; exact hc.symm
+
+/-! ### minKey -/
+
+theorem minKey_spec (ix : Idx) (h : Inv ix) (k : Nat) :
+    (∃ m, minKey ix (some k) = .ok m ∧
+      (get ix m ≠ none ∧ k ≤ m ∧ ∀ m', get ix m' ≠ none → k ≤ m' → m ≤ m')) ∨
+    (minKey ix (some k) = .error .valueError ∧ ∀ m, get ix m ≠ none → m < k) := by
+  unfold minKey
+  simp only
+  cases h1 : alMinGE (pre k) ix with
+  | none =>
+    right
+    refine ⟨rfl, fun m hm => ?_⟩
+    have := prefix_minGE_none h h1 m hm
+    unfold pre at this
+    omega
+  | some p =>
+    obtain ⟨b, hb, hp1, hp2⟩ := prefix_minGE_some h h1
+    simp only [alGet_of_mem h.1 hb]
+    by_cases hpk : p = pre k
+    · rw [if_neg (fun hn => hn hpk)]
+      subst hpk
+      cases h2 : alMinGE (suf k) b with
+      | some s =>
+        obtain ⟨hs1, hs2, hs3, hs4⟩ := bucket_minGE_some h hb h2
+        left
+        refine ⟨mk (pre k) s, rfl, hs3, ?_, ?_⟩
+        · unfold pre suf mk at *; omega
+        · intro m' hm' hkm
+          have g1 := hs4 m' hm'
+          unfold pre suf mk at *
+          omega
+      | none =>
+        have hn := bucket_minGE_none h hb h2
+        simp only
+        by_cases hmx : pre k = maxPrefix
+        · rw [if_pos hmx]
+          right
+          refine ⟨rfl, fun m hm => ?_⟩
+          have g1 := hn m hm
+          have g2 := prefix_lt h hm
+          unfold maxPrefix at hmx
+          unfold pre suf at *
+          omega
+        · rw [if_neg hmx]
+          cases h3 : alMinGE (pre k + 1) ix with
+          | none =>
+            right
+            refine ⟨rfl, fun m hm => ?_⟩
+            have g1 := hn m hm
+            have g2 := prefix_minGE_none h h3 m hm
+            unfold pre suf at *
+            omega
+          | some p' =>
+            obtain ⟨b', hb', hp1', hp2'⟩ := prefix_minGE_some h h3
+            simp only [alGet_of_mem h.1 hb']
+            obtain ⟨s, hs1, hs2, hs3, hs4⟩ := bucket_min h hb'
+            simp only [hs1]
+            left
+            refine ⟨mk p' s, rfl, hs3, ?_, ?_⟩
+            · unfold pre suf mk at *; omega
+            · intro m' hm' hkm
+              have g1 := hn m' hm'
+              have g2 := hp2' m' hm'
+              have g3 := hs4 m' hm'
+              unfold pre suf mk at *
+              omega
+    · rw [if_pos hpk]
+      obtain ⟨s, hs1, hs2, hs3, hs4⟩ := bucket_min h hb
+      simp only [hs1]
+      left
+      refine ⟨mk p s, rfl, hs3, ?_, ?_⟩
+      · unfold pre suf mk at *; omega
+      · intro m' hm' hkm
+        have g2 := hp2 m' hm'
+        have g3 := hs4 m' hm'
+        unfold pre suf mk at *
+        omega
+
+theorem minKey_refines (ix : Idx) (h : Inv ix) (k : Nat) (_hk : k < 2 ^ 64) :
+    (∀ m, minKey ix (some k) = .ok m ↔
+      (get ix m ≠ none ∧ k ≤ m ∧ ∀ m', get ix m' ≠ none → k ≤ m' → m ≤ m')) ∧
+    (minKey ix (some k) = .error .valueError ↔ ∀ m, get ix m ≠ none → m < k) ∧
+    (∀ e, minKey ix (some k) = .error e → e = .valueError) := by
+  refine refines_of_spec ?_ ?_ (minKey_spec ix h k)
+  · rintro m m' ⟨a1, a2, a3⟩ ⟨b1, b2, b3⟩
+    have := a3 m' b1 b2
+    have := b3 m a1 a2
+    omega
+  · rintro m ⟨a1, a2, _⟩ hN
+    have := hN m a1
+    omega
+
+/-! ### maxKey -/
+
+theorem maxKey_spec (ix : Idx) (h : Inv ix) (k : Nat) :
+    (∃ m, maxKey ix (some k) = .ok m ∧
+      (get ix m ≠ none ∧ m ≤ k ∧ ∀ m', get ix m' ≠ none → m' ≤ k → m' ≤ m)) ∨
+    (maxKey ix (some k) = .error .valueError ∧ ∀ m, get ix m ≠ none → k < m) := by
+  unfold maxKey
+  simp only
+  cases h1 : alMaxLE (pre k) ix with
+  | none =>
+    right
+    refine ⟨rfl, fun m hm => ?_⟩
+    have := prefix_maxLE_none h h1 m hm
+    unfold pre at this
+    omega
+  | some p =>
+    obtain ⟨b, hb, hp1, hp2⟩ := prefix_maxLE_some h h1
+    simp only [alGet_of_mem h.1 hb]
+    by_cases hpk : p = pre k
+    · rw [if_neg (fun hn => hn hpk)]
+      subst hpk
+      cases h2 : alMaxLE (suf k) b with
+      | some s =>
+        obtain ⟨hs1, hs2, hs3, hs4⟩ := bucket_maxLE_some h hb h2
+        left
+        refine ⟨mk (pre k) s, rfl, hs3, ?_, ?_⟩
+        · unfold pre suf mk at *; omega
+        · intro m' hm' hkm
+          have g1 := hs4 m' hm'
+          unfold pre suf mk at *
+          omega
+      | none =>
+        have hn := bucket_maxLE_none h hb h2
+        simp only
+        by_cases hmx : pre k = 0
+        · rw [if_pos hmx]
+          right
+          refine ⟨rfl, fun m hm => ?_⟩
+          have g1 := hn m hm
+          unfold pre suf at *
+          omega
+        · rw [if_neg hmx]
+          cases h3 : alMaxLE (pre k - 1) ix with
+          | none =>
+            right
+            refine ⟨rfl, fun m hm => ?_⟩
+            have g1 := hn m hm
+            have g2 := prefix_maxLE_none h h3 m hm
+            unfold pre suf at *
+            omega
+          | some p' =>
+            obtain ⟨b', hb', hp1', hp2'⟩ := prefix_maxLE_some h h3
+            simp only [alGet_of_mem h.1 hb']
+            obtain ⟨s, hs1, hs2, hs3, hs4⟩ := bucket_max h hb'
+            simp only [hs1]
+            left
+            refine ⟨mk p' s, rfl, hs3, ?_, ?_⟩
+            · unfold pre suf mk at *; omega
+            · intro m' hm' hkm
+              have g1 := hn m' hm'
+              have g2 := hp2' m' hm'
+              have g3 := hs4 m' hm'
+              unfold pre suf mk at *
+              omega
+    · rw [if_pos hpk]
+      obtain ⟨s, hs1, hs2, hs3, hs4⟩ := bucket_max h hb
+      simp only [hs1]
+      left
+      refine ⟨mk p s, rfl, hs3, ?_, ?_⟩
+      · unfold pre suf mk at *; omega
+      · intro m' hm' hkm
+        have g2 := hp2 m' hm'
+        have g3 := hs4 m' hm'
+        unfold pre suf mk at *
+        omega
+
+theorem maxKey_refines (ix : Idx) (h : Inv ix) (k : Nat) (_hk : k < 2 ^ 64) :
+    (∀ m, maxKey ix (some k) = .ok m ↔
+      (get ix m ≠ none ∧ m ≤ k ∧ ∀ m', get ix m' ≠ none → m' ≤ k → m' ≤ m)) ∧
+    (maxKey ix (some k) = .error .valueError ↔ ∀ m, get ix m ≠ none → k < m) ∧
+    (∀ e, maxKey ix (some k) = .error e → e = .valueError) := by
+  refine refines_of_spec ?_ ?_ (maxKey_spec ix h k)
+  · rintro m m' ⟨a1, a2, a3⟩ ⟨b1, b2, b3⟩
+    have := a3 m' b1 b2
+    have := b3 m a1 a2
+    omega
+  · rintro m ⟨a1, a2, _⟩ hN
+    have := hN m a1
+    omega
+
+/-! ### minKey() / maxKey() without argument -/
+
+theorem minKey_none_spec (ix : Idx) (h : Inv ix) :
+    (∃ m, minKey ix none = .ok m ∧
+      (get ix m ≠ none ∧ 0 ≤ m ∧ ∀ m', get ix m' ≠ none → 0 ≤ m' → m ≤ m')) ∨
+    (minKey ix none = .error .valueError ∧ ∀ m, get ix m = none) := by
+  cases ix with
+  | nil => exact .inr ⟨rfl, fun m => rfl⟩
+  | cons pb t =>
+    obtain ⟨p, b⟩ := pb
+    have hb : (p, b) ∈ (p, b) :: t := List.mem_cons_self
+    obtain ⟨s, hs1, hs2, hs3, hs4⟩ := bucket_min h hb
+    left
+    refine ⟨mk p s, ?_, hs3, Nat.zero_le _, ?_⟩
+    · simp only [minKey, hs1]
+    · intro m' hm' _
+      obtain ⟨b', v', hb', _⟩ := (get_ne_none_iff h).1 hm'
+      have g1 : p ≤ pre m' := by
+        rcases List.mem_cons.1 hb' with e | e
+        · injection e with e1 _; omega
+        · exact Nat.le_of_lt ((List.pairwise_cons.1 h.1).1 _ e)
+      have g3 := hs4 m' hm'
+      unfold pre suf mk at *
+      omega
+
+theorem minKey_none_refines (ix : Idx) (h : Inv ix) :
+    (∀ m, minKey ix none = .ok m ↔
+      (get ix m ≠ none ∧ 0 ≤ m ∧ ∀ m', get ix m' ≠ none → 0 ≤ m' → m ≤ m')) ∧
+    (minKey ix none = .error .valueError ↔ ∀ m, get ix m = none) ∧
+    (∀ e, minKey ix none = .error e → e = .valueError) := by
+  refine refines_of_spec ?_ ?_ (minKey_none_spec ix h)
+  · rintro m m' ⟨a1, a2, a3⟩ ⟨b1, b2, b3⟩
+    have := a3 m' b1 b2
+    have := b3 m a1 a2
+    omega
+  · rintro m ⟨a1, _, _⟩ hN
+    exact a1 (hN m)
+
+theorem maxKey_none_spec (ix : Idx) (h : Inv ix) :
+    (∃ m, maxKey ix none = .ok m ∧
+      (get ix m ≠ none ∧ ∀ m', get ix m' ≠ none → m' ≤ m)) ∨
+    (maxKey ix none = .error .valueError ∧ ∀ m, get ix m = none) := by
+  by_cases hne : ix = []
+  · subst hne
+    exact .inr ⟨rfl, fun m => rfl⟩
+  · obtain ⟨p, b, hp1, hb, hp3⟩ := alMax_spec h.1 hne
+    obtain ⟨s, hs1, hs2, hs3, hs4⟩ := bucket_max h hb
+    left
+    refine ⟨mk p s, ?_, hs3, ?_⟩
+    · simp only [maxKey, hp1, alGet_of_mem h.1 hb, hs1]
+    · intro m' hm'
+      obtain ⟨b', v', hb', _⟩ := (get_ne_none_iff h).1 hm'
+      have g1 := hp3 _ hb'
+      have g3 := hs4 m' hm'
+      unfold pre suf mk at *
+      simp only at g1
+      omega
+
+theorem maxKey_none_refines (ix : Idx) (h : Inv ix) :
+    (∀ m, maxKey ix none = .ok m ↔ (get ix m ≠ none ∧ ∀ m', get ix m' ≠ none → m' ≤ m)) ∧
+    (maxKey ix none = .error .valueError ↔ ∀ m, get ix m = none) ∧
+    (∀ e, maxKey ix none = .error e → e = .valueError) := by
+  refine refines_of_spec ?_ ?_ (maxKey_none_spec ix h)
+  · rintro m m' ⟨a1, a3⟩ ⟨b1, b3⟩
+    have := a3 m' b1
+    have := b3 m a1
+    omega
+  · rintro m ⟨a1, _⟩ hN
+    exact a1 (hN m)
+
+/-! ### reachable states -/
+
+theorem applyOp_inv {ix : Idx} (h : Inv ix) {o : Op} (hw : OpWF o) : Inv (applyOp ix o) := by
+  cases o with
+  | set k v =>
+    obtain ⟨ix', h1, h2, _⟩ := set_refines ix k v h hw.1 hw.2
+    simp only [applyOp, h1]
+    exact h2
+  | del k =>
+    by_cases hg : get ix k = none
+    · have := (del_refines ix k h).1 hg
+      simp only [applyOp, this]
+      exact h
+    · obtain ⟨ix', h1, h2, _⟩ := (del_refines ix k h).2 hg
+      simp only [applyOp, h1]
+      exact h2
+  | clear => exact inv_empty.1
+
+theorem foldl_applyOp_inv (ops : List Op) (ix : Idx) (h : Inv ix) (hw : ∀ o ∈ ops, OpWF o) :
+    Inv (ops.foldl applyOp ix) := by
+  induction ops generalizing ix with
+  | nil => exact h
+  | cons o t ih =>
+    simp only [List.foldl_cons]
+    exact ih _ (applyOp_inv h (hw o List.mem_cons_self))
+      (fun o' ho' => hw o' (List.mem_cons_of_mem _ ho'))
+
+theorem reachable_inv (ops : List Op) (hw : ∀ o ∈ ops, OpWF o) : Inv (ops.foldl applyOp []) :=
+  foldl_applyOp_inv ops [] inv_empty.1 hw
+
+/-! ### save / load -/
+
+theorem length_flatMap_const {α} (l : List α) (f : α → Bytes) (n : Nat)
+    (hf : ∀ x ∈ l, (f x).length = n) : (l.flatMap f).length = n * l.length := by
+  induction l with
+  | nil => simp
+  | cons x t ih =>
+    simp only [List.flatMap_cons, List.length_append, List.length_cons]
+    rw [hf x List.mem_cons_self, ih (fun y hy => hf y (List.mem_cons_of_mem _ hy)),
+      Nat.mul_succ, Nat.add_comm]
+
+theorem chunks_flatMap {α} (l : List α) (f : α → Bytes) (n : Nat)
+    (hf : ∀ x ∈ l, (f x).length = n) : chunks n l.length (l.flatMap f) = l.map f := by
+  induction l with
+  | nil => rfl
+  | cons x t ih =>
+    have hx := hf x List.mem_cons_self
+    simp only [List.length_cons, chunks, List.flatMap_cons, List.map_cons]
+    rw [List.take_left' hx, List.drop_left' hx, ih (fun y hy => hf y (List.mem_cons_of_mem _ hy))]
+
+theorem bucket_roundtrip (b : AL Nat) (hb : ∀ sv ∈ b, sv.1 < 65536 ∧ sv.2 < 2 ^ 48) :
+    bucketFromString (bucketToString b) = b := by
+  have hk : (b.flatMap fun sv => be 2 sv.1).length = 2 * b.length :=
+    length_flatMap_const _ _ _ (fun _ _ => be_length _ _)
+  have hv : (b.flatMap fun sv => be 6 sv.2).length = 6 * b.length :=
+    length_flatMap_const _ _ _ (fun _ _ => be_length _ _)
+  have hlen : (bucketToString b).length / 8 = b.length := by
+    unfold bucketToString
+    rw [List.length_append, hk, hv]
+    omega
+  unfold bucketFromString
+  simp only [hlen]
+  unfold bucketToString
+  rw [List.take_left' hk, List.drop_left' hk,
+    chunks_flatMap _ _ _ (fun _ _ => be_length _ _),
+    chunks_flatMap _ _ _ (fun _ _ => be_length _ _), List.zip_map', List.map_map]
+  conv => rhs; rw [← List.map_id b]
+  apply List.map_congr_left
+  intro sv hsv
+  obtain ⟨h1, h2⟩ := hb sv hsv
+  simp [beVal_be 2 sv.1 (by omega), beVal_be 6 sv.2 (by omega)]
+
+theorem alSet_last {α} (k : Nat) (v : α) (l : AL α) (h : ∀ x ∈ l, x.1 < k) :
+    alSet k v l = l ++ [(k, v)] := by
+  induction l with
+  | nil => rfl
+  | cons y t ih =>
+    obtain ⟨k₀, v₀⟩ := y
+    have h0 := h _ List.mem_cons_self
+    simp only at h0
+    simp only [alSet, List.cons_append]
+    rw [if_neg (by omega), if_neg (by omega), ih (fun x hx => h x (List.mem_cons_of_mem _ hx))]
+
+theorem foldl_frames (ix acc : Idx) (hs : Sorted ix) (hacc : ∀ x ∈ acc, ∀ y ∈ ix, x.1 < y.1)
+    (hb : ∀ pb ∈ ix, bucketFromString (bucketToString pb.2) = pb.2) :
+    (ix.map fun pb => (pb.1, bucketToString pb.2)).foldl
+      (fun acc f => alSet f.1 (bucketFromString f.2) acc) acc = acc ++ ix := by
+  induction ix generalizing acc with
+  | nil => simp
+  | cons pb t ih =>
+    obtain ⟨p, b⟩ := pb
+    have hs' := List.pairwise_cons.1 hs
+    have hb0 : bucketFromString (bucketToString b) = b := hb _ List.mem_cons_self
+    simp only [List.map_cons, List.foldl_cons]
+    rw [hb0, alSet_last _ _ _ (fun x hx => hacc x hx _ List.mem_cons_self),
+      ih (acc ++ [(p, b)]) hs'.2 ?_ (fun pb hpb => hb pb (List.mem_cons_of_mem _ hpb))]
+    · simp
+    · intro x hx y hy
+      rcases List.mem_append.1 hx with hx | hx
+      · exact hacc x hx y (List.mem_cons_of_mem _ hy)
+      · simp only [List.mem_singleton] at hx
+        subst hx
+        exact hs'.1 _ hy
+
+theorem save_load_id (ix : Idx) (h : Inv ix) (pos : Nat) : load (save ix pos) = (pos, ix) := by
+  unfold load save
+  simp only
+  rw [foldl_frames ix [] h.1 (by simp) (fun pb hpb => bucket_roundtrip _ (h.2 _ hpb).2.2.2)]
+  simp
 
 end Proofs.FsIndex
